@@ -225,6 +225,19 @@ def impl_case(c, since_dt, H, A, L, W, path=None):
                 res = [out, [], []]
         finally:
             fd.close()
+        # destructive=False on a fresh constraint: where is the file left?
+        cons = K.SearchConstraintSearchSince(current_date=since_str,
+                                             ts_matcher_cls=TS, days=0,
+                                             hours=0)
+        fd = mkfd()
+        try:
+            try:
+                cons.apply_to_file(fd, destructive=False)
+                res.append([fd.tell()])
+            except AssertionError:
+                res.append([])
+        finally:
+            fd.close()
     return res
 
 
@@ -259,7 +272,8 @@ Definition run_model (x : (Z * Z * Z * Z) * list Z * list (Z * Z) * list Z) : jv
   JL (map (fun since =>
     let o := run H A L W (tsw_of t) c since 0 in
     JL [jv_outcome o; JOZ (position_of c o);
-        match retval_of c o with Some r => JL [JOZ r] | None => JL [] end]) sinces).
+        match retval_of c o with Some r => JL [JOZ r] | None => JL [] end;
+        JOZ (position_of_nd c 0 o)]) sinces).
 Definition run_spec (x : (Z * Z * Z * Z) * list Z * list (Z * Z) * list Z) : jv :=
   let '(p, c, t, sinces) := x in let '(H, A, L, W) := p in
   (* memoised [fun s => tsw (read c s W)] on the line starts *)
